@@ -94,7 +94,7 @@ def classify(job, res):
 def run(report):
     quick = report.tier == "quick"
     report.rule = RULE % (len(size.FAMILIES), list(size.SCHEDULE), list(size.NEST_SCHEDULE))
-    switches = sorted(open_switches())
+    switches = sorted(open_switches('C17'))
     max_n = 1000 if quick else 10000
     pool = ThreadPoolExecutor(env.NPROC)
     table = {}
